@@ -348,6 +348,12 @@ func c08Class(kind string, m fmtMode, src []byte, origin string) string {
 	case m.simplify && kind == "tree-changed" && hasAnyPatternWithAttr(f0):
 		return v + "-simplify-any-pattern-with-attribute-becomes-ellipsis"
 	}
+	if derived && m.v2 && kind == "comment-reattached" {
+		// residual (see notes/C08.md): on mutated / generated inputs a comment that is KEPT but attached to a
+		// different node in a layout none of the shapes above describes; the mildest failure kind, and
+		// never used for repository files
+		return "v2-derived-input-comment-reattached-uncharacterised"
+	}
 	return strict
 }
 
